@@ -3,6 +3,7 @@ from __future__ import annotations
 
 import contextlib
 import io
+import json
 import os
 import shutil
 import tempfile
@@ -221,8 +222,49 @@ def correspondence(ctx):
 _ENV = None
 
 
+class _P:
+    """process record read back from a node subprocess"""
+
+    def __init__(self, d):
+        self.args = tuple(d['args'])
+        self.kwargs = d['kwargs']
+        self.started = d['started']
+
+
+def invoke_in_subprocess(env, I, N, C, T, job, hashseed):
+    """One node = one interpreter (as on a cluster), with its own string-hash seed."""
+    import subprocess
+    import sys
+    spec = json.dumps({'dir': env.dir, 'I': I, 'N': N, 'C': C, 'T': T, 'job': job})
+    e = dict(os.environ, PYTHONHASHSEED=str(hashseed))
+    r = subprocess.run([sys.executable, '-m', 'harness.props.c14', spec], capture_output=True, text=True, env=e,
+                       cwd=os.path.dirname(os.path.dirname(os.path.dirname(os.path.abspath(__file__)))), timeout=300)
+    line = [ln for ln in r.stdout.splitlines() if ln.startswith('C14NODE ')]
+    if not line:
+        return 'exc', RuntimeError('node subprocess failed: ' + (r.stderr or r.stdout)[-300:]), env.input_names(I)
+    d = json.loads(line[-1][8:])
+    if d['status'] == 'exc':
+        return 'exc', RuntimeError(d['error']), env.input_names(I)
+    return 'ok', [_P(x) for x in d['procs']], env.input_names(I)
+
+
+def _node_main(spec):
+    """entry point of a node subprocess: run one job index and print what it would launch"""
+    d = json.loads(spec)
+    env = Env.__new__(Env)
+    env.dir = d['dir']
+    st, payload, _ = env.invoke(d['I'], d['N'], d['C'], d['C'], d['T'], d['job'])
+    if st == 'exc':
+        print('C14NODE ' + json.dumps({'status': 'exc', 'error': f'{type(payload).__name__}: {payload}'}))
+    else:
+        print('C14NODE ' + json.dumps({'status': 'ok', 'procs': [
+            {'args': list(p.args), 'kwargs': {k: v for k, v in p.kwargs.items() if isinstance(v, (str, int, float, type(None)))},
+             'started': p.started} for p in payload]}))
+
+
 def check_config(case):
-    """The statement of C14 on the implementation for one (I, N, C, T): run every node 1..N."""
+    """The statement of C14 on the implementation for one (I, N, C, T): run every node 1..N
+    (case['procs']: every node in its own interpreter with its own PYTHONHASHSEED)."""
     global _ENV
     own = _ENV is None
     env = Env() if own else _ENV
@@ -234,7 +276,10 @@ def check_config(case):
         results, logs = [], []
         n_started = 0
         for job in range(1, N + 1):
-            st, payload, inputs = env.invoke(I, N, C, C, T, job)
+            if case.get('procs'):
+                st, payload, inputs = invoke_in_subprocess(env, I, N, C, T, job, hashseed=101 * job + 7)
+            else:
+                st, payload, inputs = env.invoke(I, N, C, C, T, job)
             if st == 'exc':
                 return f'job {job} raised {type(payload).__name__}: {payload}'
             names = [os.path.abspath(f) for f in inputs]
@@ -289,6 +334,10 @@ def oracle_cases(ctx, deep):
         T = int(rng.choice([q + r, q + r + 1, int(rng.integers(q + r, 5000 + q + r)),
                             (q + r) * int(rng.integers(1, 40)) + int(rng.integers(0, q + r))]))
         cases.append({'I': I, 'N': N, 'C': C, 'T': T})
+    if deep:
+        # every node in its own interpreter with its own string-hash seed (as on a cluster)
+        for (I, N, C, T) in [(2, 2, 1, 5), (3, 2, 2, 7), (4, 3, 2, 12), (6, 4, 3, 100), (5, 2, 4, 9)]:
+            cases.append({'I': I, 'N': N, 'C': C, 'T': T, 'procs': True})
     return cases
 
 
@@ -306,3 +355,8 @@ def oracle(ctx, deep=False, broken=None):
 
 def replay(ctx, payload):
     return check_config(payload['input']) is not None
+
+
+if __name__ == '__main__':
+    import sys as _sys
+    _node_main(_sys.argv[1])
